@@ -286,7 +286,8 @@ var c09SharedParts = []c09Shared{
 		}
 		return jen.Id("_").Op("=").Index().Id("T").Values(rows...)
 	}},
-	{"Clones-of-one-base", nil}, // each File appends to its own Clone() of one base statement that has spare capacity
+	{"Clones-of-one-base", nil},      // each File appends to its own Clone() of one base statement that has spare capacity
+	{"Add-of-one-prefix-slice", nil}, // each File builds its own statement with Add(prefix...) from one slice that has spare capacity, and extends it
 }
 
 type c09FileCfg struct {
@@ -347,6 +348,14 @@ func c09Share(mask int, cfgA, cfgB int, bFirst bool) (msg string, nontrivial boo
 				}
 				if wantB {
 					partsB = append(partsB, base.Clone().Index(jen.Lit(0)))
+				}
+			case "Add-of-one-prefix-slice":
+				prefix := append(make([]jen.Code, 0, 8), jen.Id("cfg"), jen.Op("."), jen.Id("Limit"), jen.Op("="))
+				if wantA {
+					partsA = append(partsA, jen.Add(prefix...).Lit(10))
+				}
+				if wantB {
+					partsB = append(partsB, jen.Add(prefix...).Lit(20))
 				}
 			default:
 				p := sp.mk()
@@ -417,7 +426,7 @@ func runC09(r *ev.Recorder) {
 		"scheduling points = every statement touching a package-level variable of jennifer or calling into os / io/ioutil (the file system, which File.Save of several Files shares; inserted by the instrumenter from go/types on the current tree) + job start/end; all interleavings with <= %d preemptions for %d job sets; "+
 		"package-level variables are snapshotted and restored per execution, map order pinned to canonical. Oracle: every job's output equals its solo output computed in a pristine process of its own (one process per job); and, when the package uses no synchronisation at all, "+
 		"no package-level variable is written by one job and accessed by another (a data race by construction). "+
-		"(2) histories: every permutation of the first five and every ordered triple of all %d jobs rendered sequentially in one process, each sequence twice; then 1500 failing and (recovered) panicking renders of unrelated Files followed by every job again; every subset of 7 shareable parts (a table of 40 composite-literal rows built with Dict, a Qual, a Case+Block, a Dict, a bare Block used after Case in one File and after If in the other, a Qual that is local to one File, two Clones of one base statement with spare capacity - one per File) "+
+		"(2) histories: every permutation of the first five and every ordered triple of all %d jobs rendered sequentially in one process, each sequence twice; then 1500 failing and (recovered) panicking renders of unrelated Files followed by every job again; every subset of 8 shareable parts (two statements made by Add(prefix...) from one slice with spare capacity and extended by chaining - one per File; a table of 40 composite-literal rows built with Dict, a Qual, a Case+Block, a Dict, a bare Block used after Case in one File and after If in the other, a Qual that is local to one File, two Clones of one base statement with spare capacity - one per File) "+
 		"shared between two Files of 4 configurations, rendered in both orders and twice - each output must equal that of a File built privately. "+
 		"every exported builder x C14's argument combinations rendered in ascending and then in descending order of cases: same bytes both times. (3) race pass: the same job bodies on free-running goroutines in a -race build (complement: a cooperative scheduler's hand-offs hide unsynchronised accesses). "+
 		"states = schedules + orders + sharings executed; distinct_nontrivial = distinct schedules with at least one preemption + sharings between Files whose private renderings differ", jn, bound, len(jobSets), len(c09Jobs))
